@@ -71,6 +71,12 @@ class Report:
         self.inconclusive.append(reason)
 
     def finish(self, coverage, level="exploration", assumptions=None):
+        dele = os.environ.get("VERIF_DELEGATE")
+        if dele:
+            # delegated run (C06 aims this monitor at an evolved model): hand the raw result back
+            with open(dele, "w") as f:
+                json.dump({"pid": self.pid, "failures": self.failures, "inconclusive": self.inconclusive, "coverage": {k: v for k, v in coverage.items() if isinstance(v, (int, float, str, bool))}}, f, default=str)
+            return HELD
         known = load_findings()
         viol = 0
         lines = []
